@@ -35,6 +35,14 @@ Theorem c15_edge_order :
 Proof. exact edge_cmp_spec. Qed.
 Print Assumptions c15_edge_order.
 
+(* Edge::reverse swaps the endpoints, keeps the value, and is an involution *)
+Theorem c15_edge_reverse :
+  forall (E : Type) (a : edge E),
+       esrc (edge_reverse a) = edst a /\
+       edst (edge_reverse a) = esrc a /\ eval (edge_reverse a) = eval a /\ edge_reverse (edge_reverse a) = a.
+Proof. exact edge_reverse_spec. Qed.
+Print Assumptions c15_edge_reverse.
+
 (* undirected Edge equality is equality of the edge values *)
 Theorem c15_edge_eq_undirected :
   forall (E : Type) (ecmp : E -> E -> comparison) (a b : edge E),
